@@ -4,6 +4,7 @@ package c05
 import (
 	"fmt"
 	"strconv"
+	"strings"
 	"testing"
 
 	jp "github.com/evanphx/json-patch/v5"
@@ -318,9 +319,78 @@ var mergeUnit = ev.Unit[MergeCase]{
 	},
 }
 
+// ---------- objects that repeat a member name ----------
+
+// RepeatCase: a root object that spells one member name twice, and one add of a new member.
+type RepeatCase struct {
+	Doc   string `json:"doc"`
+	Name  string `json:"new_member"`
+	Value string `json:"value"`
+}
+
+var repeatUnit = ev.Unit[RepeatCase]{
+	Name: "repeated-name",
+	Rule: "root object with 1-6 members (any values, exotic number literals) of which one name is spelled twice x one add of a member with a new name and a scalar literal; what the repeated members mean is open (RFC 8259 section 4), so nothing is compared with the reference model; oracle: the output is, byte for byte, the output of the empty patch with the new member appended before the closing brace - everything untouched is rendered as the empty patch renders it, and the member that was added is there, last, with its literal; non-trivial = every case",
+	Draw: func(t *rapid.T) RepeatCase {
+		d := gen.Default.Object(2).Draw(t, "doc")
+		if len(d.Keys) == 0 {
+			d.Set("k", ref.Num("1.0"))
+		}
+		i := gen.Uniform(t, 0, len(d.Keys)-1, "ri")
+		at := gen.Uniform(t, 0, len(d.Keys), "rat")
+		nv := gen.Default.Scalar().Draw(t, "rv")
+		if gen.OneIn(t, 3, "rexotic") {
+			nv = ref.Num(rapid.SampledFrom([]string{"1e400", "1.0", "-0", "12345678901234567890123", "1E+2"}).Draw(t, "rnum"))
+		}
+		keys := append(append(append([]string{}, d.Keys[:at]...), d.Keys[i]), d.Keys[at:]...)
+		vals := append(append(append([]*ref.V{}, d.Vals[:at]...), nv), d.Vals[at:]...)
+		d.Keys, d.Vals = keys, vals
+		val := rapid.SampledFrom([]string{"1", "12345678901234567890123", "1e400", "2.50", `"s"`, "null", "true", "[]", "{}", `{"q":null}`, "[1.0,null]"}).Draw(t, "aval")
+		name := rapid.SampledFrom([]string{"zn", "n", "new", "0", "k2"}).Draw(t, "aname")
+		return RepeatCase{Doc: d.Text(false), Name: name, Value: val}
+	},
+	Check: func(c RepeatCase) ev.Verdict {
+		d, err := ref.Parse([]byte(c.Doc))
+		if err != nil || d.K != ref.KObj || len(d.Keys) < 2 || !d.HasDup() {
+			return ev.Excluded("not an object that repeats a name")
+		}
+		for _, k := range d.Keys {
+			if k == c.Name {
+				return ev.Excluded("the new name is taken")
+			}
+		}
+		if strings.ContainsAny(c.Name, "~/\"\\<>&") || strings.ContainsAny(c.Value, "<>&\\ ") {
+			return ev.Excluded("name or value needs escaping")
+		}
+		o := lib.Defaults()
+		before := lib.Apply(c.Doc, "[]", o)
+		got := lib.Apply(c.Doc, `[{"op":"add","path":"/`+c.Name+`","value":`+c.Value+`}]`, o)
+		v := ev.Verdict{NonTrivial: true, Classes: []string{fmt.Sprintf("members=%d", len(d.Keys))}}
+		for _, r := range []lib.Res{before, got} {
+			if r.Panic != nil {
+				return ev.Verdict{Err: r.Panic}
+			}
+			if r.DecodeErr != nil || r.Err != nil {
+				v.Err = fmt.Errorf("Apply failed on an object that repeats a name: %v", r)
+				return v
+			}
+		}
+		if len(before.Out) < 2 || before.Out[len(before.Out)-1] != '}' {
+			v.Err = fmt.Errorf("empty patch on an object gave %q", before.Out)
+			return v
+		}
+		want := string(before.Out[:len(before.Out)-1]) + `,"` + c.Name + `":` + c.Value + "}"
+		if string(got.Out) != want {
+			v.Err = fmt.Errorf("adding a member to an object that repeats a name\n got: %s\nwant: %s (the empty patch's output plus the new member)", got.Out, want)
+		}
+		return v
+	},
+}
+
+func TestPropRepeat(t *testing.T) { ev.RunProp(t, "C05", repeatUnit) }
 func TestProp(t *testing.T)      { ev.RunProp(t, "C05", applyUnit) }
 func TestPropEmpty(t *testing.T) { ev.RunProp(t, "C05", emptyUnit) }
 func TestPropMerge(t *testing.T) { ev.RunProp(t, "C05", mergeUnit) }
 func TestReplay(t *testing.T) {
-	ev.Replay(t, map[string]ev.Replayer{applyUnit.Name: applyUnit.Replayer(), emptyUnit.Name: emptyUnit.Replayer(), mergeUnit.Name: mergeUnit.Replayer()})
+	ev.Replay(t, map[string]ev.Replayer{applyUnit.Name: applyUnit.Replayer(), emptyUnit.Name: emptyUnit.Replayer(), mergeUnit.Name: mergeUnit.Replayer(), repeatUnit.Name: repeatUnit.Replayer()})
 }
